@@ -18,7 +18,7 @@ R.import_proved(_PQ.R, "contracts.priorityqueue_pyx",
                 ["PriorityQueue.c_push", "PriorityQueue.c_pop/any", "PriorityQueue.c_change_score", "PriorityQueue.c_get_score_by_item",
                  "PriorityQueue.c_is_empty", "PriorityQueue.is_empty"])
 R.callee_map[("*", "c_pop")] = "PriorityQueue.c_pop/any"
-R.import_proved(_COV.R, "contracts.coverage_py", ["CovMonitor.max_coverage_in_range", "CovMonitor.add_read"])
+R.import_proved(_COV.R, "contracts.coverage_py", ["CovMonitor.__init__", "CovMonitor.max_coverage_in_range", "CovMonitor.add_read"])
 R.import_proved(_G.R, "contracts.graph_py", ["ComponentFinder.__init__", "ComponentFinder.merge", "ComponentFinder.find"])
 R.declare_class("CReadSet", {"reads": LIST(REF("CRead"))})
 R.declare_class("CRead", {"pos": LIST(INT)})
@@ -27,6 +27,16 @@ P = ["C07"]
 
 SPAN_B = z3.Function("SPAN_B", z3.IntSort(), z3.IntSort())
 SPAN_E = z3.Function("SPAN_E", z3.IntSort(), z3.IntSort())
+
+
+@R.spec
+def span_b(eng, st, r):
+    return SPAN_B(to_z3(r))
+
+
+@R.spec
+def span_e(eng, st, r):
+    return SPAN_E(to_z3(r))
 
 
 class ReadSetModel:
@@ -89,7 +99,7 @@ def VALID(eng, st, readset, vcf_indices, coverages, v2r):
             SPAN_B(r) == idx(parr[ref][0]), SPAN_E(r) == idx(parr[ref][plen[ref] - 1]) + 1,
             0 <= SPAN_B(r), SPAN_B(r) < SPAN_E(r), SPAN_E(r) <= cov.len)), patterns=[reads.arr[r], SPAN_B(r), SPAN_E(r)]),
         z3.ForAll([r, i], z3.Implies(z3.And(r >= 0, r < reads.len, i >= 0, i < plen[ref]), z3.And(
-            vcf_indices.dom[parr[ref][i]], v2r.dom[idx(parr[ref][i])])), patterns=[parr[reads.arr[r]][i]]),
+            vcf_indices.dom[parr[ref][i]], v2r.dom[idx(parr[ref][i])], z3.Implies(i >= 1, parr[ref][i] != parr[ref][0]))), patterns=[parr[reads.arr[r]][i]]),
     ]
 
 
@@ -122,7 +132,7 @@ def MONOTONE(eng, st, coverages):
     cov = eng.load_field_raw(st, coverages, "coverage")
     cov0 = eng.load_field_raw(st.old, st.old.env["coverages"], "coverage")
     k = z3.Int(fresh_name("k"))
-    return [cov.len == cov0.len, z3.ForAll([k], z3.Implies(z3.And(k >= 0, k < cov.len), cov.arr[k] >= cov0.arr[k]), patterns=[cov.arr[k]])]
+    return [cov.len == cov0.len, z3.ForAll([k], z3.Implies(z3.And(k >= 0, k < cov.len), cov.arr[k] >= cov0.arr[k]), patterns=[cov.arr[k], cov0.arr[k]])]
 
 
 CNT_F = z3.Function("SPANCOUNT", z3.ArraySort(z3.IntSort(), z3.BoolSort()), z3.IntSort(), z3.IntSort())
@@ -196,3 +206,195 @@ R.contract(
     },
     extra={"assume": ["COUNTING()"]},
     props=P)
+
+
+# ---------------------------------------------------------------------------------------------------------------------------------
+R.contract(
+    "_construct_priorityqueue", params={"readset": REF("CReadSet"), "read_indices": SET(INT), "vcf_indices": DICT(INT, INT)}, returns=REF("PriorityQueue"),
+    requires=[("swo", "SWO()"), ("indices-valid", "forall(k, implies(k in read_indices, 0 <= k and k < len(readset.reads)))")],
+    ensures=[("fresh", "result is not None and fresh_pq(result)"), ("swo", "SWO()"), ("pos", "POSOK(result)"), ("order", "ORDER(result)"),
+             ("scores-valid", "forall(i, implies(0 <= i and i < len(result.heap), result.heap[i].first is not None and len(result.heap[i].first.data) >= 0))"),
+             ("items-are-the-given-reads", "forall(k, (k in result.positions) == (k in read_indices))")],
+    modifies=_QMOD, extra={"allocates": ["PriorityQueue"]},
+    locals={"priorityqueue": REF("PriorityQueue")},
+    loops={0: dict(index="qi", inv=[("swo", "SWO()"), ("fresh", "priorityqueue is not None and fresh_pq(priorityqueue)"), ("pos", "POSOK(priorityqueue)"), ("order", "ORDER(priorityqueue)"),
+                                    ("scores-valid", "forall(i, implies(0 <= i and i < len(priorityqueue.heap), priorityqueue.heap[i].first is not None and len(priorityqueue.heap[i].first.data) >= 0))"),
+                                    ("items", "forall(k, (k in priorityqueue.positions) == visited(0, k))")])},
+    props=P)
+
+
+@R.spec
+def fresh_pq(eng, st, q):
+    return z3.And(to_z3(q) >= st.old.alloc["pre:PriorityQueue"], to_z3(q) < eng.alloc_bound(st, "PriorityQueue"))
+
+
+R.contract("PriorityQueue.pop", assumed=True, params={"self": REF("PriorityQueue")}, returns=TUPLE(INT, INT),
+           requires=[("swo", "SWO()"), ("pos", "POSOK(self)"), ("order", "ORDER(self)"),
+                     ("scores-valid", "forall(i, implies(0 <= i and i < len(self.heap), self.heap[i].first is not None and len(self.heap[i].first.data) >= 0))"),
+                     ("non-empty", "len(self.heap) > 0")],
+           ensures=[("pos", "POSOK(self)"), ("order", "ORDER(self)"), ("returns-queued-item", "old(result[1] in self.positions)"), ("view", "VIEW_REMOVED(self, result[1])"),
+                    ("scores-valid", "forall(i, implies(0 <= i and i < len(self.heap), self.heap[i].first is not None and len(self.heap[i].first.data) >= 0))")],
+           modifies=_QMOD, props=P)
+
+
+@R.spec
+def ADDITIVE(eng, st):
+    """SPANCOUNT of a disjoint union is the sum (a theorem about counting finite sets, assumed here)"""
+    A = z3.ArraySort(z3.IntSort(), z3.BoolSort())
+    a, b, c = z3.Const(fresh_name("A"), A), z3.Const(fresh_name("B"), A), z3.Const(fresh_name("C"), A)
+    r, k = z3.Ints(fresh_name("r") + " " + fresh_name("k"))
+    return z3.ForAll([a, b, c, k], z3.Implies(z3.And(z3.ForAll([r], c[r] == z3.Or(a[r], b[r])), z3.ForAll([r], z3.Not(z3.And(a[r], b[r])))),
+                                              CNT_F(c, k) == CNT_F(a, k) + CNT_F(b, k)),
+                     patterns=[z3.MultiPattern(CNT_F(c, k), CNT_F(a, k), CNT_F(b, k))])
+
+
+_H = [
+    ("cap", "CAP(coverages, max_cov)"),
+    ("monotone", "MONOTONE(coverages)"),
+    ("selected-and-undecided-disjoint", "forall(k, not (k in selected_reads and k in undecided_reads))"),
+    ("undecided-valid", "forall(k, implies(k in undecided_reads, 0 <= k and k < len(readset.reads)))"),
+    ("selected-grows", "forall(k, implies(old(k in selected_reads), k in selected_reads))"),
+    ("selected-come-from-undecided", "forall(k, implies(k in selected_reads, old(k in selected_reads) or old(k in undecided_reads)))"),
+    ("undecided-shrinks", "forall(k, implies(k in undecided_reads, old(k in undecided_reads)))"),
+    ("left-out-reads-are-saturated", "forall(k, implies(old(k in undecided_reads), k in selected_reads or k in undecided_reads or SATURATED(coverages, max_cov, k)))"),
+    ("coverage-counts-the-selection", "forall(k, implies(0 <= k and k < len(coverages.coverage), "
+                                      "coverages.coverage[k] - CNT(selected_reads, k) == old(coverages.coverage[k]) - old(CNT(selected_reads, k))), triggers=[coverages.coverage[k]])"),
+]
+_CF = [("cf-wf", "WF(component_finder)"), ("cf-nodes", "forall(v, (v in component_finder.nodes) == exists(j, 0 <= j and j < len(positions) and positions[j] == v))")]
+_HQ = [("swo", "SWO()"), ("pos", "POSOK(pq)"), ("order", "ORDER(pq)"),
+       ("scores-valid", "forall(i, implies(0 <= i and i < len(pq.heap), pq.heap[i].first is not None and len(pq.heap[i].first.data) >= 0))"),
+       ("queued-are-undecided", "forall(k, implies(k in pq.positions, k in undecided_reads))")]
+
+R.contract(
+    "readselection_helper",
+    params={"coverages": REF("CovMonitor"), "max_cov": INT, "readset": REF("CReadSet"), "vcf_indices": DICT(INT, INT), "variant_to_reads_map": DICT(INT, LIST(INT)),
+            "selected_reads": SET(INT), "undecided_reads": SET(INT), "positions": LIST(INT), "bridging": BOOL},
+    returns=SET(INT), mutates=["selected_reads", "undecided_reads"],
+    requires=[("swo", "SWO()")] + INPUTS + [
+        ("selected-and-undecided-disjoint", "forall(k, not (k in selected_reads and k in undecided_reads))"),
+        ("undecided-valid", "forall(k, implies(k in undecided_reads, 0 <= k and k < len(readset.reads)))"),
+        ("positions-listed", "forall(r, i, implies(0 <= r and r < len(readset.reads) and 0 <= i and i < len(readset.reads[r].pos), "
+                             "exists(j, 0 <= j and j < len(positions) and positions[j] == readset.reads[r].pos[i])))"),
+    ],
+    ensures=[
+        ("returns-the-selection", "forall(k, (k in result) == (k in new_selected_reads))"),
+        ("cap-kept", "CAP(coverages, max_cov)"),
+        ("earlier-selection-kept", "forall(k, implies(old(k in selected_reads), k in result))"),
+        ("selected-are-input-reads", "forall(k, implies(k in result, old(k in selected_reads) or old(k in undecided_reads)))"),
+        ("maximal", "forall(k, implies(old(k in undecided_reads), k in result or SATURATED(coverages, max_cov, k)))"),
+        ("no-read-left-undecided", "forall(k, k not in new_undecided_reads)"),
+        ("coverage-counts-the-selection", "forall(k, implies(0 <= k and k < len(coverages.coverage), "
+                                          "coverages.coverage[k] - CNT(result, k) == old(coverages.coverage[k]) - old(CNT(selected_reads, k))))"),
+        ("coverage-only-grows", "MONOTONE(coverages)"),
+    ],
+    modifies=_QMOD + ["CovMonitor.coverage", "ComponentFinder.nodes", "Node.value", "Node.parent"],
+    locals={"pq": REF("PriorityQueue"), "read": REF("CRead"), "reads_in_slice": SET(INT), "reads_violating_coverage": SET(INT), "bridging_reads": SET(INT),
+            "covered_blocks": SET(INT), "component_finder": REF("ComponentFinder"), "score": INT, "read_index": INT},
+    loops={
+        0: dict(inv=_H, allocates=["PriorityQueue", "ComponentFinder", "Node"]),
+        1: dict(index="si", inv=_CF),
+        2: dict(index="mi", inv=_CF),
+        3: dict(inv=_H + _HQ + _CF),
+        4: dict(index="bi", inv=_CF),
+        5: dict(index="ci", inv=_CF),
+    },
+    extra={"assume": ["COUNTING()", "ADDITIVE()"], "allocates": ["PriorityQueue", "ComponentFinder", "Node"]},
+    props=P)
+
+
+# ---------------------------------------------------------------------------------------------------------------------------------
+# readselection: the statement of C07 for the public entry point.
+R.declare_class("PyReadSet", {"thisptr": REF("CReadSet")})
+R.iter_fields["PyReadSet"] = "__reads__"
+INDEXES = TUPLE(LIST(INT), DICT(INT, INT), DICT(INT, LIST(INT)), SET(INT))
+
+
+class PyReadSetModel:
+    @staticmethod
+    def len(eng, st, obj):
+        return eng.load_field(st, VRef("CReadSet", to_z3(eng.load_field(st, obj, "thisptr"))), "reads").len
+
+    @staticmethod
+    def getattr(eng, st, obj, name):
+        if name == "__reads__":      # iteration yields the wrapped reads in index order
+            return eng.load_field(st, VRef("CReadSet", to_z3(eng.load_field(st, obj, "thisptr"))), "reads")
+        return NotImplemented
+
+
+class PyReadLen:
+    @staticmethod
+    def len(eng, st, obj):
+        return eng.load_field(st, obj, "pos").len
+
+
+R.object_models["PyReadSet"] = PyReadSetModel
+ReadModel.len = PyReadLen.len
+
+
+@R.spec
+def INDEXED(eng, st, rs, positions, vcf_indices, v2r):
+    """what _construct_indexes returns (assumed): positions lists every variant position of every read, vcf_indices maps each of them to an index below
+    len(positions), the map has an entry for each such index, positions within a read differ from its first one and the index of the first does not
+    exceed the index of the last; SPAN_B/SPAN_E name [index of first, index of last + 1)"""
+    reads, parr, plen = _reads(eng, st, rs)
+    r, i, j = z3.Ints(fresh_name("r") + " " + fresh_name("i") + " " + fresh_name("j"))
+    ref = reads.arr[r]
+    idx = lambda p: vcf_indices.map[p]
+    return [
+        positions.len >= 0,
+        z3.ForAll([r], z3.Implies(z3.And(r >= 0, r < reads.len, plen[ref] >= 1), z3.And(
+            SPAN_B(r) == idx(parr[ref][0]), SPAN_E(r) == idx(parr[ref][plen[ref] - 1]) + 1, 0 <= SPAN_B(r), SPAN_B(r) < SPAN_E(r), SPAN_E(r) <= positions.len)),
+            patterns=[reads.arr[r], SPAN_B(r), SPAN_E(r)]),
+        z3.ForAll([r, i], z3.Implies(z3.And(r >= 0, r < reads.len, i >= 0, i < plen[ref]), z3.And(
+            vcf_indices.dom[parr[ref][i]], v2r.dom[idx(parr[ref][i])], z3.Implies(i >= 1, parr[ref][i] != parr[ref][0]),
+            z3.Exists([j], z3.And(j >= 0, j < positions.len, positions.arr[j] == parr[ref][i])))), patterns=[parr[reads.arr[r]][i]]),
+    ]
+
+
+R.contract("_construct_indexes", assumed=True, params={"readset": REF("PyReadSet"), "preferred_source_ids": INT}, returns=INDEXES,
+           ensures=[("indexed", "INDEXED(readset.thisptr, result[0], result[1], result[2])"),
+                    ("preferred-are-reads", "forall(k, implies(k in result[3], 0 <= k and k < len(readset.thisptr.reads)))")],
+           extra={"target": None}, props=P)
+
+@R.spec
+def READS_TYPED(eng, st, rs):
+    """the read set's entries are (non-null) read objects"""
+    reads, parr, plen = _reads(eng, st, rs)
+    r = z3.Int(fresh_name("r"))
+    return z3.ForAll([r], z3.Implies(z3.And(r >= 0, r < reads.len), z3.And(reads.arr[r] > 0, reads.arr[r] < eng.alloc_bound(st, "CRead"))), patterns=[reads.arr[r]])
+
+
+_N = "len(pyreadset.thisptr.reads)"
+R.contract(
+    "readselection", params={"pyreadset": REF("PyReadSet"), "max_cov": INT, "preferred_source_ids": INT, "bridging": BOOL}, returns=SET(INT),
+    requires=[("swo", "SWO()"), ("cap-non-negative", "max_cov >= 0"), ("readset", "pyreadset.thisptr is not None"),
+              ("reads-valid", "READS_TYPED(pyreadset.thisptr)")],
+    raises={"ValueError": "exists(r, 0 <= r and r < " + _N + " and len(pyreadset.thisptr.reads[r].pos) < 2)"},
+    ensures=[
+        ("selected-are-input-reads", "forall(k, implies(k in result, 0 <= k and k < " + _N + "))"),
+        ("no-variant-spanned-more-than-cap-times", "forall(k, implies(0 <= k and k < len(positions), CNT(result, k) <= max_cov))"),
+        ("maximal", "forall(r, implies(0 <= r and r < " + _N + " and r not in result, exists(k, span_b(r) <= k and k < span_e(r) and CNT(result, k) >= max_cov)))"),
+    ],
+    modifies=_QMOD + ["CovMonitor.coverage", "ComponentFinder.nodes", "Node.value", "Node.parent"],
+    locals={"readset": REF("CReadSet"), "selected_reads": SET(INT), "undecided_reads": SET(INT)},
+    loops={0: dict(index="ri", inv=[("all-reads-so-far-cover-two-variants", "forall(r, implies(0 <= r and r < ri, len(pyreadset.thisptr.reads[r].pos) >= 2))")])},
+    extra={"assume": ["COUNTING()", "ADDITIVE()"], "allocates": ["PriorityQueue", "ComponentFinder", "Node", "CovMonitor"], "assume_asserts": [0]},
+    props=P)
+
+
+def canary_strict_cap():
+    import copy
+    c = copy.copy(R.contracts["readselection"])
+    c.ensures = [("wrong", "forall(k, implies(0 <= k and k < len(positions), CNT(result, k) < max_cov))")]      # "the cap is never reached"
+    return c
+
+
+def canary_slice_rejects_nothing():
+    import copy
+    c = copy.copy(R.contracts["_slice_read_selection"])
+    c.ensures = [("wrong", "forall(k, k not in result[1])")]      # "no read is ever rejected"
+    return c
+
+
+R.canaries.append(("readselect.pyx:canary#cap-never-reached", canary_strict_cap))
+R.canaries.append(("readselect.pyx:canary#slice-rejects-nothing", canary_slice_rejects_nothing))
